@@ -245,7 +245,7 @@ def case_outcross(ctx, c):
 
 
 FAMILIES = {"sus": (case_sus, 12000, 400000), "tiled": (case_tiled, 4000, 100000), "tiled-addon": (case_tiled_addon, 1500, 40000),
-            "axis": (case_axis, 3000, 60000), "outcross": (case_outcross, 9000, 200000)}
+            "axis": (case_axis, 3000, 60000), "outcross": (case_outcross, 9000, 120000)}
 
 
 def run_shard(ctx):
